@@ -326,6 +326,12 @@ def translate_picked(fn, k):
                           and isinstance(n.targets[0], ast.Name) and n.targets[0].id == what], "assignment to " + what)
             result = tr.expr(st.value)
             tr.locals[what] = result
+        elif kind == "assign_in_for":
+            st = _unique([n for f in ast.walk(fn) if isinstance(f, ast.For) for n in ast.walk(f)
+                          if isinstance(n, ast.Assign) and len(n.targets) == 1
+                          and isinstance(n.targets[0], ast.Name) and n.targets[0].id == what],
+                         "assignment to " + what + " inside a loop")
+            result = tr.expr(st.value)
         elif kind == "store":
             st = _unique([n for n in ast.walk(fn) if isinstance(n, ast.Assign) and len(n.targets) == 1
                           and ast.unparse(n.targets[0]) == what], "store into " + what)
@@ -390,6 +396,25 @@ KERNELS += [
 
 
 KERNELS += [
+    dict(name="last_reward", file="job_shop_lib/reinforcement_learning/_reward_observers.py", cls="RewardObserver",
+         fn="last_reward", params="(has : bool) (lastr : Z)", args="rw", rtype="Z",
+         leaves={"self.rewards": ("has", "bool"), "self.rewards[-1]": ("lastr", "Z")},
+         quant="(rw : list Z)", imports="Feasible",
+         call="gen_k (match last_opt rw with Some _ => true | None => false end) "
+              "(match last_opt rw with Some r => r | None => 0 end)",
+         model="match last_opt rw with Some r => r | None => 0 end", unfold="", props=["C13"]),
+    dict(name="schedule_is_complete", file="job_shop_lib/_schedule.py", cls="Schedule", fn="is_complete",
+         params="(I : instance) (S : schedule)", args="I S", rtype="bool",
+         leaves={"self.num_scheduled_operations": ("num_scheduled S", "nat"),
+                 "self.instance.num_operations": ("num_ops I", "nat")},
+         model="is_complete I S", unfold="is_complete", props=["C01", "C18", "C04"]),
+    dict(name="makespan_step", file="job_shop_lib/_schedule.py", cls="Schedule", fn="makespan",
+         params="(acc e : Z)", args="acc e", rtype="Z", pick=[("assign_in_for", "max_end_time")],
+         leaves={"max_end_time": ("acc", "Z"), "machine_schedule[-1].end_time": ("e", "Z")},
+         quant="(I : instance) (acc : Z) (row : list sop)", imports="Feasible",
+         call="match last_opt row with Some y => gen_k acc (s_end I y) | None => acc end",
+         model="fold_left (fun acc row => match last_opt row with Some y => Z.max acc (s_end I y) | None => acc end) "
+               "[row] acc", unfold="", cbn="fold_left", props=["C02", "C13", "C06"]),
     dict(name="next_operation_guard", file="job_shop_lib/dispatching/_dispatcher.py", cls="Dispatcher",
          fn="next_operation", params="(I : instance) (d : dstate) (j : nat)", args="I d j", rtype="bool",
          pick=[("guard_of", "raise ValidationError*")],
